@@ -275,6 +275,30 @@ Definition ofile_eqb (a b : ofile) : bool :=
 Definition writes_of (k : ofile) (l : list (Z * ofile)) : list Z :=
   flat_map (fun w : Z * ofile => if ofile_eqb (snd w) k then [fst w] else []) l.
 
+(* colvarbias_abf::write_output_files: each call (at the steps w, in order) also appends a block to the history files
+   when the step is a multiple of historyFreq and is not the step of the previous block (history_last_step) *)
+Fixpoint abf_hist (hf : Z) (last : option Z) (w : list Z) : list Z :=
+  match w with
+  | [] => []
+  | it :: r =>
+      if (0 <? hf) && (it mod hf =? 0) && negb (match last with Some l => l =? it | None => false end)
+      then it :: abf_hist hf (Some it) r
+      else abf_hist hf last r
+  end.
+
+(* a buffered record file (metadynamics hills trajectory): add_hill appends a record to a buffer, write_output_files
+   appends the buffer to the file and clears it *)
+Inductive fevent (R : Type) := FRec (r : R) | FFlush.
+Arguments FRec {R}. Arguments FFlush {R}.
+Fixpoint flush_run {R} (file buf : list R) (evs : list (fevent R)) : list R * list R :=
+  match evs with
+  | [] => (file, buf)
+  | FRec r :: e => flush_run file (buf ++ [r]) e
+  | FFlush :: e => flush_run (file ++ buf) [] e
+  end.
+Definition records_of {R} (evs : list (fevent R)) : list R :=
+  flat_map (fun e => match e with FRec r => [r] | FFlush => [] end) evs.
+
 Local Close Scope Z_scope.
 
 (* =================================================================================================
